@@ -1,9 +1,12 @@
 #!/bin/bash
 # Re-runs every stored seeded change against the check of the property it breaks (quick tier, scratch worktree).
 # usage: tools/seedregress.sh [k n]   — with k and n only every n-th seed, starting at the k-th (for parallel streams)
+# SEEDORDER=mixed visits the seeds in a fixed pseudo-random order (a run that is cut short still samples every property)
 cd /verif
 k=${1:-0}; n=${2:-1}; i=0
-for d in seeded/*/; do
+list=$(ls -d seeded/*/)
+[ "${SEEDORDER:-}" = mixed ] && list=$(for d in $list; do echo "$(echo $d | md5sum | cut -c1-8) $d"; done | sort | cut -d' ' -f2)
+for d in $list; do
   i=$((i+1)); [ $((i % n)) -eq $k ] || continue
   id=$(basename $d); prop=$(python3 -c "import json;m=json.load(open('$d/meta.json'));print(m.get('check_property') or m['breaks_property'])")
   res=$(tools/seedcheck2.sh $PWD/$d/patch.diff $prop 2>&1 | grep "seed result" | tail -1)
